@@ -89,77 +89,53 @@ Definition C01_builtin_call_no_panic_full : Prop :=
     can_accept (builtin_arity b) (Datatypes.length args) = true ->
     fst (builtin_impl cb b args st) <> Panic /\ fst (builtin_impl cb b args st) <> Unmodelled.
 
-(* ---- FunctionDef::call at every depth, and the evaluator, instantiated (release build) ---- *)
-Theorem C01_call_no_panic : forall d fr this f args st,
-  fst (AD true binop_impl builtin_impl d fr this f args st) <> Panic.
+(* ---- the factorial: `(1..=min(n as u64, 171))` has no partial operation in either build.
+        Before repo fix def3962 (proposed as fixes/C01-factorial-overflow.diff) the bound was
+        `(n as u64) + 1`, which overflowed for n >= 2^64 in builds with overflow checks; the
+        model then had a Panic arm for release = false and this theorem was refuted by
+        `18446744073709551616!`. ---- *)
+Theorem C01_factorial_no_panic : forall release n, factorial_val release n <> Panic.
+Proof. exact factorial_no_panic. Qed.
+Check C01_factorial_no_panic : forall release n, factorial_val release n <> Panic.
+Print Assumptions C01_factorial_no_panic.
+
+(* ---- FunctionDef::call at every depth, and the evaluator, instantiated with the transcribed
+        operators and built-ins, for both overflow semantics ---- *)
+Theorem C01_call_no_panic : forall release d fr this f args st,
+  fst (AD release binop_impl builtin_impl d fr this f args st) <> Panic.
 Proof.
-  intros d fr. apply AD_no_panic.
+  intros release d fr. apply AD_no_panic.
   - exact binop_impl_no_panic.
   - exact builtin_impl_no_panic.
-  - exact factorial_release_no_panic.
+  - exact (factorial_no_panic release).
 Qed.
-Check C01_call_no_panic : forall d fr this f args st,
-  fst (AD true binop_impl builtin_impl d fr this f args st) <> Panic.
+Check C01_call_no_panic : forall release d fr this f args st,
+  fst (AD release binop_impl builtin_impl d fr this f args st) <> Panic.
 Print Assumptions C01_call_no_panic.
 
-Theorem C01_eval_release_no_panic : forall d c e,
-  wf c -> fst (evalD true binop_impl builtin_impl d c e) <> Panic.
-Proof. exact eval_release_no_panic. Qed.
-Check C01_eval_release_no_panic : forall d c e,
-  wf c -> fst (evalD true binop_impl builtin_impl d c e) <> Panic.
-Print Assumptions C01_eval_release_no_panic.
+Theorem C01_eval_inst_no_panic : forall release d c e,
+  wf c -> fst (evalD release binop_impl builtin_impl d c e) <> Panic.
+Proof. exact eval_inst_no_panic. Qed.
+Check C01_eval_inst_no_panic : forall release d c e,
+  wf c -> fst (evalD release binop_impl builtin_impl d c e) <> Panic.
+Print Assumptions C01_eval_inst_no_panic.
 
 (* ---- whole programs: the statement loop of evaluate_source, from any inputs record ---- *)
-Theorem C01_program_no_panic : forall inputs prog,
-  Forall (fun rs => fst rs <> RFail Panic) (snd (run eval_release (init_session inputs) prog)).
-Proof. exact program_release_no_panic. Qed.
-Check C01_program_no_panic : forall inputs prog,
-  Forall (fun rs => fst rs <> RFail Panic) (snd (run eval_release (init_session inputs) prog)).
+Theorem C01_program_no_panic : forall release inputs prog,
+  Forall (fun rs => fst rs <> RFail Panic)
+         (snd (run (eval_top release binop_impl builtin_impl) (init_session inputs) prog)).
+Proof. exact program_no_panic. Qed.
+Check C01_program_no_panic : forall release inputs prog,
+  Forall (fun rs => fst rs <> RFail Panic)
+         (snd (run (eval_top release binop_impl builtin_impl) (init_session inputs) prog)).
 Print Assumptions C01_program_no_panic.
 
-(* ---- overflow semantics.  The one arithmetic operation on the evaluator path that can
-        overflow is `(n as u64) + 1` in the factorial: in a build with overflow checks it
-        aborts exactly when n >= 2^64 (the cast saturates to u64::MAX and n equals it as f64).
-        known_C01 is that class; outside it the debug build does not panic either. ---- *)
-Definition known_C01_factorial (n : num) : bool :=
-  ngeb n nzero && neqb n (num_of_Z (as_u64 n)) && (as_u64 n =? U64_MAX)%Z.
-
-Theorem C01_factorial_debug_panics_only_in_known_class : forall n,
-  factorial_val false n = Panic <-> known_C01_factorial n = true.
-Proof.
-  intros n. rewrite factorial_debug_panic_iff. unfold known_C01_factorial. split.
-  - intros [H1 H2]. rewrite H1. apply Z.eqb_eq in H2. rewrite H2. reflexivity.
-  - intros H. apply andb_true_iff in H. destruct H as [H1 H2]. apply Z.eqb_eq in H2. auto.
-Qed.
-Check C01_factorial_debug_panics_only_in_known_class : forall n,
-  factorial_val false n = Panic <-> known_C01_factorial n = true.
-Print Assumptions C01_factorial_debug_panics_only_in_known_class.
-
-(* any build whose factorials are total (the release build; a debug build after the proposed
-   repair fixes/C01-factorial-overflow.diff) *)
-Theorem C01_eval_no_panic_if_factorial_total : forall release,
-  (forall n, factorial_val release n <> Panic) ->
-  forall d c e, wf c -> fst (evalD release binop_impl builtin_impl d c e) <> Panic.
-Proof. exact eval_no_panic_if_factorial_total. Qed.
-Check C01_eval_no_panic_if_factorial_total : forall release,
-  (forall n, factorial_val release n <> Panic) ->
-  forall d c e, wf c -> fst (evalD release binop_impl builtin_impl d c e) <> Panic.
-Print Assumptions C01_eval_no_panic_if_factorial_total.
-
-(* REFUTED for the debug build on the current code: `18446744073709551616!` (2^64) *)
+(* the former witness of the debug-build refutation now evaluates to +inf in both builds *)
 Definition two_pow_64 : num := num_of_Z 18446744073709551616.
-Lemma C01_eval_debug_no_panic_refuted :
-  exists c e, wf c /\ fst (eval_debug c e) = Panic.
-Proof.
-  exists (s_cfg (init_session [])), (EFact (ENum two_pow_64)). split; [reflexivity|].
-  vm_compute. reflexivity.
-Qed.
-Lemma C01_known_factorial_witness : known_C01_factorial two_pow_64 = true.
-Proof. vm_compute. reflexivity. Qed.
-(* in the release build the same program wraps to the empty product *)
-Example C01_release_wraps :
-  fst (eval_release (s_cfg (init_session [])) (EFact (ENum two_pow_64))) = Ok (VNum (num_of_Z 1)).
-Proof. vm_compute. reflexivity. Qed.
+Example C01_factorial_of_2_64 :
+  fst (eval_debug (s_cfg (init_session [])) (EFact (ENum two_pow_64))) = Ok (VNum npinf) /\
+  fst (eval_release (s_cfg (init_session [])) (EFact (ENum two_pow_64))) = Ok (VNum npinf).
+Proof. split; vm_compute; reflexivity. Qed.
 
 (* ---- the hypotheses are satisfiable / the statements are not vacuous ---- *)
 (* wf holds of every session start, whatever the inputs *)
@@ -182,3 +158,12 @@ Proof. vm_compute. reflexivity. Qed.
 (* a callback-safe callback exists: FunctionDef::call itself at any depth *)
 Example C01_cb_safe_inhabited : cb_safe (AD true binop_impl builtin_impl 3 []).
 Proof. intros this f args st. apply C01_call_no_panic. Qed.
+(* the hypotheses of C01_eval_no_panic are satisfied by the real transcriptions *)
+Example C01_hypotheses_satisfied : forall release d c e,
+  wf c -> fst (evalD release binop_impl builtin_impl d c e) <> Panic.
+Proof.
+  intros release. apply C01_eval_no_panic.
+  - exact C01_operators_no_panic.
+  - exact C01_builtin_call_no_panic_partial.
+  - exact (C01_factorial_no_panic release).
+Qed.
